@@ -62,3 +62,47 @@ func TestC09NoUpstream(t *testing.T) {
 	vh.Run(t, vh.Spec[vh.ShimCase]{Property: "C09", Name: "TestC09NoUpstream", Rule: rule,
 		Gen: func(t *rapid.T) vh.ShimCase { return vh.GenShimCase(t, profile) }, Exec: exec})
 }
+
+// TestC09Many: many YSSHCA certificates in one underlying agent - all at once and renewed over time.
+func TestC09Many(t *testing.T) {
+	vh.Run(t, vh.Spec[vh.ShimCase]{Property: "C09", Name: "TestC09Many",
+		Rule: "one underlying agent holding 20..120 distinct certificates (three quarters with YSSHCA KeyIDs of all types, the rest free text) over the pool keys: a part present at construction, the rest added out of band in batches between list / signers / sign calls, older ones removed out of band (renewal) so that the shim sees far more distinct certificates than are present at any time; executed in no-upstream mode and with the mode off. Same reference model and oracle: every YSSHCA certificate is hidden in listings and signers however many there are or were, everything else stays listed, with the mode off nothing is hidden",
+		Gen: func(t *rapid.T) vh.ShimCase {
+			c := vh.ShimCase{}
+			n := rapid.SampledFrom([]int{20, 31, 32, 33, 34, 40, 64, 65, 120}).Draw(t, "ncerts")
+			classes := []string{"ysshca0", "ysshca1", "ysshca2", "ysshca3", "ysshca4", "ysshca5", "ysshca6", "ysshca8", "ysshca9", "ysshca1", "text", "text", "missing"}
+			keys := []string{"p256b", "ed25519b", "p384a", "ed25519c", "p256c"}
+			for i := 0; i < n; i++ {
+				c.Certs = append(c.Certs, vh.CertDef{Key: keys[i%len(keys)], KeyIDClass: classes[rapid.IntRange(0, len(classes)-1).Draw(t, fmt.Sprintf("class%d", i))], Validity: "forever", Serial: uint64(2000 + i)})
+			}
+			initial := rapid.IntRange(0, n).Draw(t, "initial")
+			if rapid.Bool().Draw(t, "allAtOnce") {
+				initial = n
+			}
+			c.Initial = append(c.Initial, vh.Op{Kind: "oobadd", Key: "rsa1536", Cert: -1, Comment: "plain"})
+			for i := 0; i < initial; i++ {
+				c.Initial = append(c.Initial, vh.Op{Kind: "oobaddcert", Cert: i, Comment: "u"})
+			}
+			next, oldest := initial, 0
+			probe := func() {
+				c.Ops = append(c.Ops, vh.Op{Kind: rapid.SampledFrom([]string{"list", "signers", "list"}).Draw(t, fmt.Sprintf("probe%d", len(c.Ops))), Cert: -1})
+			}
+			probe()
+			for next < n {
+				batch := rapid.IntRange(1, 12).Draw(t, fmt.Sprintf("batch%d", next))
+				for b := 0; b < batch && next < n; b++ {
+					c.Ops = append(c.Ops, vh.Op{Kind: "oobaddcert", Cert: next, Comment: "u"})
+					next++
+				}
+				if rapid.Bool().Draw(t, fmt.Sprintf("renew%d", next)) {
+					for r := 0; r < batch && oldest < next-1; r++ {
+						c.Ops = append(c.Ops, vh.Op{Kind: "oobremove", Cert: oldest})
+						oldest++
+					}
+				}
+				probe()
+			}
+			c.Ops = append(c.Ops, vh.Op{Kind: "sign", Cert: n - 1, Data: []byte("x")}, vh.Op{Kind: "signers", Cert: -1}, vh.Op{Kind: "list", Cert: -1})
+			return c
+		}, Exec: exec})
+}
